@@ -587,7 +587,7 @@ def _graphemes(e, c, a):
         if it.k >= len(offs) - 1:
             return none()
         remaining = len(offs) - 1 - it.k
-        take = 1 + e_.branch([True] * remaining)        # every cluster length is possible
+        take = 1 + e_.choose(remaining)        # every cluster length is possible
         lo = offs[it.k]; hi = offs[it.k + take]
         it.k += take
         log = getattr(e_, 'grapheme_choices', None)
